@@ -229,6 +229,25 @@ impl Property for C05 {
         let mut plans = plans;
         let mut extra = xargs::XExtra::default();
         let mut note: String = if long { "long".into() } else { "short".into() };
+        if rng.chance(1, 6000) {
+            // more than 65535 arguments, one per line
+            let n = *rng.pick(&[65_535usize, 65_536, 65_537, 70_000]);
+            let sepb = cfg.delim.unwrap_or(b'\n');
+            let mut v = Vec::with_capacity(n * 3);
+            for i in 0..n {
+                v.push(if sepb == b'a' { b'x' } else { b'a' } + (i % 20) as u8);
+                v.push(b'0' + (i % 10) as u8);
+                v.push(sepb);
+            }
+            if sepb != b'a' && sepb != b'0' {
+                // (a few large invocations: the count of arguments matters here, not of runs)
+                opts.retain(|o| !matches!(o, Opt::L(_)));
+                opts.push(Opt::N(5000));
+                input = v;
+                plans = vec![vec![], vec![ReadOp::Data(4095), ReadOp::Data(4097), ReadOp::Intr, ReadOp::Data(8192)]];
+                note = "many arguments".into();
+            }
+        }
         match rng.weighted(&[940, 30, 20, 10]) {
             1 => {
                 // the stream is a real file that xargs opens itself (no seam, no plans)
@@ -336,6 +355,10 @@ impl Property for C05 {
         }
         if sc.base.extra.stack_kib.is_some() {
             rep.probe("small_stack");
+        }
+        if sc.base.note == "many arguments" {
+            rep.probe("more_than_65535_arguments");
+            rep.want_sample = false;
         }
         if sc.base.note == "separator run" {
             rep.probe("tens_of_thousands_of_consecutive_separators");
